@@ -117,6 +117,21 @@ pub fn open_flow(
                 }
             }
 
+            // if the flow is opened with the same native token used to pay for the flow_fee, the
+            // funds sent must be exactly the declared flow_asset amount (flow_fee included), i.e.
+            // what remains as flow_asset.amount plus the flow_fee. Otherwise the flow would be
+            // recorded with an amount that was never transferred to the contract.
+            if let AssetInfo::NativeToken {
+                denom: flow_asset_denom,
+            } = &flow_asset.info
+            {
+                if *flow_asset_denom == flow_fee_denom
+                    && paid_amount != flow_asset.amount.checked_add(flow_fee.amount)?
+                {
+                    return Err(ContractError::FlowAssetNotSent);
+                }
+            }
+
             // send fee to fee collector
             messages.push(
                 BankMsg::Send {
